@@ -714,6 +714,25 @@ func C02(c *Ctx) {
 					}
 				}
 			}
+			// the copy spelled out in place: a map made in this iteration and filled from the ranged map
+			if mk, isMk := mp.(*ssa.MakeMap); isMk && L != nil && L.Blocks[mk.Block()] {
+				op := loopOperand(L)
+				for _, l2 := range loops {
+					if l2 == L || !L.Blocks[l2.Header] {
+						continue
+					}
+					if op2 := loopOperand(l2); op2 == nil || op == nil || op2 != op {
+						continue
+					}
+					for b2 := range l2.Blocks {
+						for _, i2 := range b2.Instrs {
+							if mu, isMU := i2.(*ssa.MapUpdate); isMU && mu.Map == ssa.Value(mk) {
+								okFresh = true
+							}
+						}
+					}
+				}
+			}
 			c.R.Check(okFresh, "C02-R2", key, c.pos(in), "deletes from a copy of the ranged map made in this iteration", "a consumed element is removed from a map shared with other alternatives (or from the map being ranged)")
 			// pairing: the copy is appended to the list of remaining-element maps in the same block as the success is recorded
 			appended := false
@@ -777,26 +796,42 @@ func C02(c *Ctx) {
 			if !isPhi {
 				return // keyed by the range index of the message array: an original position
 			}
+			// an index loop over the message array that files each element under its own position
+			val := mu.Value
+			if mi, isMI := val.(*ssa.MakeInterface); isMI {
+				val = mi.X
+			}
+			if ld, isLd := val.(*ssa.UnOp); isLd && ld.Op == token.MUL {
+				if ia, isIA := ld.X.(*ssa.IndexAddr); isIA && ia.Index == ssa.Value(phi) && m.has(ia.X, "F") {
+					return
+				}
+			}
 			n4++
 			okInit := false
 			var why string
-			for i, e := range phi.Edges {
-				pred := phi.Block().Preds[i]
-				_ = pred
+			for _, e := range phi.Edges {
 				if bo, isB := e.(*ssa.BinOp); isB && bo.Op == token.ADD && bo.X == ssa.Value(phi) {
 					continue // i++
 				}
-				if cl, isC := e.(*ssa.Call); isC {
-					if b, isB := cl.Common().Value.(*ssa.Builtin); isB && b.Name() == "len" {
-						a := cl.Common().Args[0]
-						if _, isSl := a.Type().Underlying().(*types.Slice); isSl && m.has(a, "F") {
-							okInit = true
+				// the starting value, possibly handed in by the caller of a helper
+				for _, d := range deepDefs(e, m.fns) {
+					if bo, isB := d.(*ssa.BinOp); isB && bo.Op == token.ADD {
+						if p2, isP := bo.X.(*ssa.Phi); isP && p2 == phi {
 							continue
 						}
-						why = "fresh indexes start at len(" + a.Name() + "), which is not the message array"
 					}
-				} else {
-					why = "fresh indexes start at " + e.String()
+					if cl, isC := d.(*ssa.Call); isC {
+						if b, isB := cl.Common().Value.(*ssa.Builtin); isB && b.Name() == "len" {
+							a := cl.Common().Args[0]
+							if _, isSl := a.Type().Underlying().(*types.Slice); isSl && m.has(a, "F") {
+								okInit = true
+								continue
+							}
+							why = "fresh indexes start at len(" + a.Name() + "), which is not the message array"
+							continue
+						}
+					}
+					why = "fresh indexes start at " + d.String()
 				}
 			}
 			c.R.Check(okInit && why == "", "C02-R4", fmt.Sprintf("%s: merged member index #%d", fname(f), n4), c.pos(mu), "starts at the length of the message array, advanced by one", "left-over members can overwrite remaining structured members: "+why)
